@@ -7,8 +7,9 @@ import re
 from dataclasses import dataclass, field
 
 from ..core import Ctx
+from ..localnames import load_table
 from ..match import stores
-from ..model import AnalysisError, FuncInfo, chain, const_value, norm, strip_cast
+from ..model import AnalysisError, ClassInfo, FuncInfo, chain, const_value, enclosing_stmt, norm, strip_cast, walk_no_nested
 
 LEVEL = "other"
 EXPLANATION = (
@@ -18,8 +19,13 @@ EXPLANATION = (
     "introduction request first records the requester's LAN address (the only source of the LAN address handed out later); (2) the LAN/WAN "
     "selection at the requester and the puncture target at the introduced peer are evaluated as decision tables over "
     "their atoms (wan known, lan known, same public IP) and must equal the stated tables. The functions are evaluated "
-    "symbolically path by path (locals substituted by their values, conditions forked on their atoms), so the verdict "
-    "does not depend on how the branches, locals or helpers are spelled. Reachability for the 4x4 NAT "
+    "symbolically path by path (locals substituted by their values, conditions forked on their atoms; helpers that the "
+    "reviewed tree does not have, local defs, lambdas, generators and callables picked from dict/tuple dispatch tables are "
+    "entered with their parameters bound to the caller's values), so the verdict "
+    "does not depend on how the branches, locals or helpers are spelled. Two freshness clauses complete (1) and (2): the "
+    "same-NAT test of a response reads the own-WAN estimate as updated by that response, and the wrapper of the signed "
+    "introduction handlers records the packet's source address with a known peer on every packet (the address that is "
+    "handed out and punctured towards). Reachability for the 4x4 NAT "
     "matrix needs a filtering/translating network model and is not decided."
 )
 
@@ -55,6 +61,24 @@ class _Cnt(Exception):
 
 class _Rse(Exception):
     pass
+
+
+class _Exc(_Rse):
+    """an implicit exception that the evaluated code catches itself (KeyError of a lookup inside try/except KeyError)"""
+
+    def __init__(self, kind: str) -> None:
+        self.kind = kind
+
+
+_CATCHES_KEYERROR = {"KeyError", "LookupError", "Exception", "BaseException"}
+
+
+def _handler_catches(h: ast.ExceptHandler, kind: str) -> bool:
+    if h.type is None:
+        return True
+    names = [chain(t) for t in (h.type.elts if isinstance(h.type, ast.Tuple) else [h.type])]
+    return any(n is not None and n.split(".")[-1] in (_CATCHES_KEYERROR if kind == "KeyError" else {kind, "Exception", "BaseException"})
+               for n in names)
 
 
 @dataclass
@@ -126,9 +150,61 @@ def _has_call(e: ast.AST) -> bool:
     return any(isinstance(n, (ast.Call, ast.NamedExpr, ast.Await)) for n in ast.walk(e))
 
 
+_REPO = None                # repository model of the current check (set by every rule before it evaluates a function)
+
+
+def _is_new(fi: FuncInfo) -> bool:
+    """fi does not exist in the reviewed tree (sa/tables/local_names.json): a helper introduced by a later change"""
+    return fi.qualname not in load_table().get(fi.module.relpath, {})
+
+
+_NEW_NAMES: list = [None, frozenset()]       # (repo, names of the functions of that repo which the reviewed tree does not have)
+
+
+def _new_names(repo) -> frozenset:
+    if _NEW_NAMES[0] is not repo:
+        _NEW_NAMES[0], _NEW_NAMES[1] = repo, frozenset(f.name for f in repo.all_functions() if _is_new(f))
+    return _NEW_NAMES[1]
+
+
+def _is_enum(c) -> bool:
+    return isinstance(c, tuple) and c[:1] == ("<enum>",)
+
+
+def _boolish(e: ast.AST) -> bool:
+    """e evaluates to True / False (not merely to something truthy)"""
+    if isinstance(e, ast.Compare):
+        return True
+    if isinstance(e, ast.UnaryOp) and isinstance(e.op, ast.Not):
+        return True
+    if isinstance(e, ast.BoolOp):
+        return all(_boolish(v) for v in e.values)
+    if isinstance(e, ast.IfExp):
+        return _boolish(e.body) and _boolish(e.orelse)
+    if isinstance(e, ast.Constant):
+        return isinstance(e.value, bool)
+    return isinstance(e, ast.Call) and isinstance(e.func, ast.Name) and e.func.id in ("bool", "isinstance", "issubclass", "callable") \
+        and not e.keywords
+
+
+def _literal_table(e) -> bool:
+    if isinstance(e, ast.Dict):
+        return all(k is not None for k in e.keys)
+    return isinstance(e, (ast.Tuple, ast.List)) and not any(isinstance(x, ast.Starred) for x in e.elts)
+
+
 class _Run:
-    def __init__(self, fi: FuncInfo, preset: dict, prefix: list) -> None:
+    def __init__(self, fi: FuncInfo, preset: dict, prefix: list, repo=None) -> None:
         self.fi = fi
+        self.repo = repo if repo is not None else _REPO
+        self.frames: list[FuncInfo] = [fi]            # the function being evaluated and the helpers it is currently inside
+        self.active: list = []                        # function nodes being evaluated (recursion guard)
+        self.closures: dict[str, ast.AST] = {}        # local `def`s seen so far (a name passed on to a helper still denotes it)
+        self.yields: list[list] = []                  # values produced by the generator helpers being evaluated
+        self.awaited: list = []                       # results of inlined coroutine helpers (`await` of them is the value)
+        self.defenv: dict[int, dict] = {}             # lambda / local def -> locals of the frame that created it
+        self.catching = 0                             # enclosing try statements (also of callers) that catch KeyError
+        self.outer: list[dict] = []                   # locals of the callers of the helper being evaluated
         self.preset = preset
         self.prefix = prefix
         self.trace: list[bool] = []
@@ -200,13 +276,44 @@ class _Run:
             self.pretty[key] = (f"{a} {sym[kind][0]} {b}", f"{a} {sym[kind][1]} {b}")
         return key, pol
 
+    def cv(self, x: ast.expr):
+        """constant denoted by an evaluated expression: a literal, a module / class constant, or a member of an Enum class"""
+        v = const_value(x)
+        if not _noconst(v) or self.repo is None:
+            return v
+        plain = isinstance(x, ast.Name) and x.id.isidentifier() or \
+            isinstance(x, ast.Attribute) and isinstance(x.value, ast.Name) and x.value.id.isidentifier()
+        if not plain:
+            return v
+        for fi in (self.frames[-1], self.fi):
+            if isinstance(x, ast.Attribute) and x.value.id not in ("self", "cls"):
+                c = self.repo.resolve_class_expr(fi.module, x.value)
+                if c is not None and any(b.endswith(("Enum", "Flag")) for b in c.all_base_names()) and c.lookup_attr(x.attr) is not None:
+                    return ("<enum>", c.where, x.attr)
+            try:
+                w = self.repo.resolve_const(fi.module, x, self.fi.cls)
+            except (StopIteration, AttributeError, KeyError, TypeError):
+                continue
+            if not _noconst(w) and isinstance(w, (str, bytes, int, float, bool, tuple, type(None))):
+                return w
+        return v
+
     def _cmp_key(self, l: ast.expr, op: ast.cmpop, r: ast.expr):
         l, r = strip_cast(l), strip_cast(r)
+        if isinstance(op, (ast.Is, ast.IsNot)):
+            cl, cr = self.cv(l), self.cv(r)
+            if _is_enum(cl) and _is_enum(cr):
+                return None, (cl == cr) == isinstance(op, ast.Is)
         if isinstance(op, (ast.Eq, ast.NotEq)):
-            cl, cr = const_value(l), const_value(r)
+            cl, cr = self.cv(l), self.cv(r)
             pol = isinstance(op, ast.Eq)
             if not _noconst(cl) and not _noconst(cr):
                 return None, (cl == cr) == pol
+            # a named constant is compared as the literal it denotes
+            if not _noconst(cl) and _noconst(const_value(l)) and not _is_enum(cl):
+                l = ast.parse(repr(cl), mode="eval").body
+            if not _noconst(cr) and _noconst(const_value(r)) and not _is_enum(cr):
+                r = ast.parse(repr(cr), mode="eval").body
             a, b = sorted((_t(l), _t(r)), key=_unver)
             if a == b:
                 return None, pol
@@ -256,6 +363,15 @@ class _Run:
         if isinstance(v, ast.Compare):
             left = v.left
             for op, right in zip(v.ops, v.comparators):
+                rr = strip_cast(right)
+                if isinstance(op, (ast.In, ast.NotIn)) and isinstance(rr, (ast.Tuple, ast.List, ast.Set)) \
+                        and not any(isinstance(x, ast.Starred) for x in rr.elts):
+                    # membership in a literal: equal to one of its elements
+                    hit = any(self.truth(ast.Compare(left=left, ops=[ast.Eq()], comparators=[x])) for x in rr.elts)
+                    if hit != isinstance(op, ast.In):
+                        return False
+                    left = right
+                    continue
                 key, pol = self.cmp_key(left, op, right)
                 val = pol if key is None else (self.lookup(key) == pol)
                 if not val:
@@ -295,10 +411,24 @@ class _Run:
             return self.versioned(ast.Name(id=e.id, ctx=ast.Load()))
         if isinstance(e, ast.Attribute):
             b = self.base(self.ev(e.value))
-            return self.versioned(ast.Attribute(value=b, attr=e.attr, ctx=ast.Load()))
+            a = ast.Attribute(value=b, attr=e.attr, ctx=ast.Load())
+            if self.repo is not None and e.attr in _new_names(self.repo):
+                tgt = self.target(a)
+                if isinstance(tgt, FuncInfo) and {"property", "cached_property", "functools.cached_property"} & set(tgt.decorator_names()):
+                    return self.follow(tgt, a, [], [], None)          # a property the reviewed tree does not have: its getter
+            return self.versioned(a)
         if isinstance(e, ast.Subscript):
             b = self.base(self.ev(e.value))
-            return self.versioned(ast.Subscript(value=b, slice=self.ev(e.slice), ctx=ast.Load()))
+            k = self.ev(e.slice)
+            if _literal_table(b) and not isinstance(k, ast.Slice):
+                return self.select(b, k, None)             # a literal indexed on the spot denotes the selected element
+            if self.catching and not isinstance(k, ast.Slice) and not isinstance(const_value(k), int):
+                # a lookup inside `try: ... except KeyError:` - the handler is the `k not in D` branch
+                kin = f"in:{_t(k)}:{_t(b)}"
+                self.pretty.setdefault(kin, (f"{_t(k)} in {_t(b)}", f"{_t(k)} not in {_t(b)}"))
+                if not self.lookup(kin):
+                    raise _Exc("KeyError")
+            return self.versioned(ast.Subscript(value=b, slice=k, ctx=ast.Load()))
         if isinstance(e, ast.Slice):
             return ast.Slice(lower=self.ev(e.lower) if e.lower else None, upper=self.ev(e.upper) if e.upper else None,
                              step=self.ev(e.step) if e.step else None)
@@ -319,13 +449,22 @@ class _Run:
         if isinstance(e, ast.UnaryOp):
             return ast.UnaryOp(op=e.op, operand=self.ev(e.operand))
         if isinstance(e, ast.BinOp):
-            return ast.BinOp(left=self.ev(e.left), op=e.op, right=self.ev(e.right))
+            l, r = self.ev(e.left), self.ev(e.right)
+            if isinstance(e.op, ast.Add) and type(l) is type(r) and isinstance(l, (ast.List, ast.Tuple)):
+                return type(l)(elts=[*l.elts, *r.elts], ctx=ast.Load())          # concatenation of two literals
+            return ast.BinOp(left=l, op=e.op, right=r)
         if isinstance(e, ast.Compare):
             return ast.Compare(left=self.ev(e.left), ops=list(e.ops), comparators=[self.ev(c) for c in e.comparators])
         if isinstance(e, ast.IfExp):
             return self.ev(e.body) if self.truth(self.ev(e.test)) else self.ev(e.orelse)
         if isinstance(e, (ast.Tuple, ast.List, ast.Set)):
-            return type(e)(elts=[self.ev(x) for x in e.elts], **({} if isinstance(e, ast.Set) else {"ctx": ast.Load()}))
+            elts = []
+            for x in (self.ev(x) for x in e.elts):
+                if isinstance(x, ast.Starred) and isinstance(x.value, (ast.List, ast.Tuple)):
+                    elts.extend(x.value.elts)            # `[*[a, b], c]` is `[a, b, c]`
+                else:
+                    elts.append(x)
+            return type(e)(elts=elts, **({} if isinstance(e, ast.Set) else {"ctx": ast.Load()}))
         if isinstance(e, ast.Dict):
             return ast.Dict(keys=[self.ev(k) if k is not None else None for k in e.keys], values=[self.ev(v) for v in e.values])
         if isinstance(e, (ast.ListComp, ast.SetComp, ast.GeneratorExp)):
@@ -335,12 +474,16 @@ class _Run:
             self.env[e.target.id] = v
             return v
         if isinstance(e, ast.Await):
-            return ast.Await(value=self.ev(e.value))
+            v = self.ev(e.value)
+            if any(v is x for x in self.awaited):
+                return v                                 # value returned by an inlined coroutine helper
+            return ast.Await(value=v)
         if isinstance(e, ast.JoinedStr):
             return ast.JoinedStr(values=[self.ev(v) for v in e.values])
         if isinstance(e, ast.FormattedValue):
             return ast.FormattedValue(value=self.ev(e.value), conversion=e.conversion, format_spec=e.format_spec)
         if isinstance(e, ast.Lambda):
+            self.defenv[id(e)] = self.env
             return e
         raise self.undecided(f"expression `{norm(e)[:60]}`")
 
@@ -352,6 +495,220 @@ class _Run:
             return ast.Subscript(value=g[0], slice=g[1], ctx=ast.Load())
         return b
 
+    def select(self, table: ast.expr, key: ast.expr, default: ast.expr | None) -> ast.expr:
+        """element of a dict / tuple / list literal picked by an evaluated key; an unknown key is decided entry by entry"""
+        key = strip_cast(key)
+        if isinstance(table, ast.Dict):
+            entries = list(zip(table.keys, table.values))
+            kc = const_value(key)
+            for k, v in entries:
+                c = const_value(k)
+                if not _noconst(kc) and not _noconst(c):
+                    hit = kc == c
+                elif isinstance(k, ast.Constant) and isinstance(k.value, bool) and _boolish(key):
+                    hit = self.truth(key) == k.value
+                else:
+                    hit = self.truth(ast.Compare(left=key, ops=[ast.Eq()], comparators=[k]))
+                if hit:
+                    return v
+            if default is not None:
+                return default
+            raise _Rse                                   # KeyError
+        elts = table.elts
+        if isinstance(key, ast.Call) and isinstance(key.func, ast.Name) and key.func.id == "int" and len(key.args) == 1 \
+                and not key.keywords and _boolish(key.args[0]):
+            key = key.args[0]
+        kc = const_value(key)
+        if isinstance(kc, int) and not _noconst(kc):
+            if -len(elts) <= kc < len(elts):
+                return elts[kc]
+            raise _Rse                                   # IndexError
+        if _boolish(key) and len(elts) >= 2:
+            return elts[1] if self.truth(key) else elts[0]
+        return self.versioned(ast.Subscript(value=table, slice=key, ctx=ast.Load()))
+
+    def const_table(self, e: ast.expr):
+        """the dict / tuple / list literal a module constant or class attribute is bound to (dispatch tables), else None"""
+        if self.repo is None:
+            return None
+        v = None
+        if isinstance(e, ast.Name) and e.id not in self.env:
+            for fi in (self.frames[-1], self.fi):
+                r = self.repo.resolve_name(fi.module, e.id)
+                if isinstance(r, tuple) and r[0] == "const":
+                    v = r[2]
+                    break
+        elif isinstance(e, ast.Attribute) and isinstance(e.value, ast.Name):
+            cls = None
+            if e.value.id in ("self", "cls") and e.value.id not in self.env or _t(self.env.get(e.value.id)) == "self":
+                cls = self.fi.cls
+            elif e.value.id not in self.env:
+                cls = self.repo.resolve_class_expr(self.frames[-1].module, e.value)
+            if cls is not None and not any(e.attr in c.methods for c in cls.mro()):
+                v = cls.lookup_attr(e.attr)
+                if v is not None and any(e.attr in s.attrs for s in cls.all_subclasses()):
+                    v = None
+        return v if v is not None and _literal_table(v) else None
+
+    def picked(self, fn: ast.expr) -> ast.expr:
+        """callee taken from a dispatch table held in a module constant / class attribute: `T[k]`, `T.get(k[, d])`, getattr"""
+        if isinstance(fn, ast.Subscript) and not isinstance(fn.slice, ast.Slice):
+            t = self.const_table(fn.value)
+            if t is not None:
+                t = self.in_frame_of(None, lambda: self.ev(t))
+                return self.picked(self.select(t, fn.slice, None))
+        g = fn if isinstance(fn, ast.Call) and isinstance(fn.func, ast.Attribute) and fn.func.attr == "get" and not fn.keywords \
+            and 1 <= len(fn.args) <= 2 and not any(isinstance(a, ast.Starred) for a in fn.args) else None
+        if g is not None:
+            t = self.const_table(g.func.value)
+            if isinstance(t, ast.Dict):
+                t = self.in_frame_of(None, lambda: self.ev(t))
+                return self.picked(self.select(t, g.args[0], g.args[1] if len(g.args) == 2 else ast.Constant(value=None)))
+        return fn
+
+    def in_frame_of(self, env: dict | None, thunk):
+        saved = self.env
+        self.outer.append(self.env)
+        self.env = dict(env or {})
+        try:
+            return thunk()
+        finally:
+            self.outer.pop()
+            self.env = saved
+
+    def set_list(self, name: str, value: ast.List) -> None:
+        """in-place change of a list held in a local: every local (of this frame and of the callers) that is bound to the same
+        list object - `out = introductions`, a list passed to a helper, a list captured by a local def - sees the new contents"""
+        old = self.env[name]
+        for env in (self.env, *self.outer):
+            for k, v in env.items():
+                if v is old:
+                    env[k] = value
+
+    # ------------------------------------------------------------------------------------------------ helpers that are followed
+    def target(self, fn: ast.expr):
+        """what a call of the evaluated callee `fn` runs, when that is code this evaluation follows:
+        a lambda, a local def, or a function / method that the reviewed tree does not have (exactly one candidate)."""
+        if isinstance(fn, ast.Lambda):
+            return fn
+        if isinstance(fn, ast.Name) and fn.id in self.closures:
+            return self.closures[fn.id]
+        if self.repo is None or not isinstance(fn, (ast.Name, ast.Attribute)):
+            return None
+        if (fn.id if isinstance(fn, ast.Name) else fn.attr) not in _new_names(self.repo):
+            return None                                  # only functions that the reviewed tree does not have are entered
+        probe = ast.Call(func=fn, args=[], keywords=[])
+        cands: list[FuncInfo] = []
+        for fi in ([self.frames[-1], self.fi] if isinstance(fn, ast.Name) else [self.fi]):
+            try:
+                cands = self.repo.resolve_call(fi, probe)
+            except (AttributeError, KeyError, TypeError):
+                cands = []
+            if cands:
+                break
+        if isinstance(fn, ast.Name) and cands and cands[0].name == "__init__":
+            return None
+        if isinstance(fn, ast.Name) and not cands:
+            # a plain function name found in a class-level dispatch table: the method of that name (called with an explicit self)
+            for fi in (self.frames[-1], self.fi):
+                m = fi.cls.lookup(fn.id) if fi.cls is not None else None
+                if m is not None:
+                    cands = [m]
+                    break
+        if len(cands) != 1 or not _is_new(cands[0]) or cands[0].node in self.active:
+            return None
+        return cands[0]
+
+    def follow(self, tgt, fn: ast.expr, args: list, kws: list, src: ast.Call | None) -> ast.expr:
+        """evaluate the body of a followed helper with its parameters bound to the evaluated arguments"""
+        node = tgt.node if isinstance(tgt, FuncInfo) else tgt
+        what = tgt.qualname if isinstance(tgt, FuncInfo) else getattr(node, "name", "lambda")
+        if len(self.active) > 12:
+            raise self.undecided(f"helper calls nested deeper than 12 at {what}")
+        if any(isinstance(a, ast.Starred) for a in args) or any(k.arg is None for k in kws):
+            raise self.undecided(f"starred arguments in the call of helper {what}")
+        bound_self = None
+        if isinstance(tgt, FuncInfo) and tgt.cls is not None and isinstance(fn, ast.Attribute):
+            decos = set(tgt.decorator_names())
+            if "staticmethod" not in decos:
+                explicit = "classmethod" not in decos and self.repo is not None and isinstance(fn.value, ast.Name) \
+                    and fn.value.id not in ("self", "cls") and isinstance(self.repo.resolve_class_expr(self.fi.module, fn.value), ClassInfo)
+                if not explicit:
+                    bound_self = fn.value
+        a = node.args
+        pos = [x.arg for x in a.posonlyargs + a.args]
+        kwonly = [x.arg for x in a.kwonlyargs]
+        vals = ([bound_self] if bound_self is not None else []) + list(args)
+        new: dict[str, ast.expr] = dict(zip(pos, vals))
+        rest = vals[len(pos):]
+        if rest and not a.vararg:
+            raise self.undecided(f"too many arguments for helper {what}")
+        if a.vararg:
+            new[a.vararg.arg] = ast.Tuple(elts=rest, ctx=ast.Load())
+        extra = []
+        for k in kws:
+            if k.arg in new and k.arg != (a.kwarg.arg if a.kwarg else None):
+                raise self.undecided(f"argument {k.arg} of helper {what} given twice")
+            if k.arg in pos[len(a.posonlyargs):] or k.arg in kwonly:
+                new[k.arg] = k.value
+            elif a.kwarg:
+                extra.append(k)
+            else:
+                raise self.undecided(f"unknown keyword {k.arg} for helper {what}")
+        defaults = dict(zip(pos[len(pos) - len(a.defaults):], a.defaults))
+        defaults.update({n: d for n, d in zip(kwonly, a.kw_defaults) if d is not None})
+        for n in pos + kwonly:
+            if n not in new:
+                if n not in defaults:
+                    raise self.undecided(f"missing argument {n} for helper {what}")
+                new[n] = self.in_frame_of(None, lambda d=defaults[n]: self.ev(d))
+        if a.kwarg:
+            new[a.kwarg.arg] = ast.Dict(keys=[ast.Constant(value=k.arg) for k in extra], values=[k.value for k in extra])
+        is_fn = isinstance(node, (ast.FunctionDef, ast.AsyncFunctionDef))
+        body_nodes = list(walk_no_nested(node, include_root_defs=True)) if is_fn else []
+        if any(isinstance(n, ast.Nonlocal) for n in body_nodes):
+            raise self.undecided(f"nonlocal in helper {what}")
+        is_gen = any(isinstance(n, (ast.Yield, ast.YieldFrom)) for n in body_nodes)
+        # a lambda / local def reads the enclosing locals as they are when it is called; a function starts from its parameters
+        closure = not isinstance(tgt, FuncInfo)
+        saved = self.env
+        self.outer.append(self.env)
+        self.env = {**(self.defenv.get(id(node), self.env) if closure else {}), **new}
+        self.active.append(node)
+        if isinstance(tgt, FuncInfo):
+            self.frames.append(tgt)
+        if is_gen:
+            self.yields.append([])
+        n_stores = len(self.stores)
+        ret: ast.expr | None = None
+        try:
+            if isinstance(node, ast.Lambda):
+                ret = self.ev(node.body)
+            else:
+                try:
+                    self.block(node.body)
+                except _Ret as r:
+                    ret = r.value
+                except (_Brk, _Cnt):
+                    raise AnalysisError(f"undecided: break/continue outside a loop in {what}") from None
+        finally:
+            produced = self.yields.pop() if is_gen else None
+            if isinstance(tgt, FuncInfo):
+                self.frames.pop()
+            self.active.pop()
+            self.outer.pop()
+            self.env = saved
+        if is_gen:
+            if len(self.stores) != n_stores:
+                # the body of a generator runs interleaved with its consumer: evaluating it eagerly would reorder its stores
+                raise self.undecided(f"generator helper {what} with stores")
+            return ast.List(elts=produced, ctx=ast.Load())
+        if ret is None:
+            ret = ast.Constant(value=None)
+        if isinstance(node, ast.AsyncFunctionDef):
+            self.awaited.append(ret)
+        return ret
+
     def call(self, e: ast.Call) -> ast.expr:
         f = e.func
         if isinstance(f, ast.Name) and f.id == "cast" and len(e.args) == 2:
@@ -362,15 +719,93 @@ class _Run:
             cur = self.env[f.value.id]
             args = [self.ev(a) for a in e.args]
             if f.attr == "append" and len(args) == 1 and not isinstance(args[0], ast.Starred):
-                self.env[f.value.id] = ast.List(elts=[*cur.elts, args[0]], ctx=ast.Load())
+                self.set_list(f.value.id, ast.List(elts=[*cur.elts, args[0]], ctx=ast.Load()))
                 return ast.Constant(value=None)
             if f.attr == "extend" and len(args) == 1 and isinstance(args[0], (ast.List, ast.Tuple)):
-                self.env[f.value.id] = ast.List(elts=[*cur.elts, *args[0].elts], ctx=ast.Load())
+                self.set_list(f.value.id, ast.List(elts=[*cur.elts, *args[0].elts], ctx=ast.Load()))
                 return ast.Constant(value=None)
+            plain = not any(isinstance(x, ast.Starred) for x in [*cur.elts, *args])
+            idx = const_value(args[0]) if args else None
+            if f.attr == "insert" and len(args) == 2 and plain and isinstance(idx, int) and not _noconst(idx):
+                elts = list(cur.elts)
+                elts.insert(idx, args[1])
+                self.set_list(f.value.id, ast.List(elts=elts, ctx=ast.Load()))
+                return ast.Constant(value=None)
+            if f.attr == "clear" and not args:
+                self.set_list(f.value.id, ast.List(elts=[], ctx=ast.Load()))
+                return ast.Constant(value=None)
+            if f.attr == "reverse" and not args and plain:
+                self.set_list(f.value.id, ast.List(elts=list(reversed(cur.elts)), ctx=ast.Load()))
+                return ast.Constant(value=None)
+            if f.attr == "pop" and len(args) <= 1 and plain and (not args or (isinstance(idx, int) and not _noconst(idx))):
+                elts = list(cur.elts)
+                k = -1 if not args else idx
+                if not -len(elts) <= k < len(elts):
+                    raise _Rse                           # IndexError
+                v = elts.pop(k)
+                self.set_list(f.value.id, ast.List(elts=elts, ctx=ast.Load()))
+                return v
             raise self.undecided(f"list mutation `{norm(e)[:60]}`")
-        fn = self.ev(f)
+        fn = self.picked(self.ev(f))
         args = [self.ev(a) for a in e.args]
         kws = [ast.keyword(arg=k.arg, value=self.ev(k.value)) for k in e.keywords]
+        if isinstance(fn, ast.Attribute) and fn.attr == "get" and _literal_table(fn.value) and isinstance(fn.value, ast.Dict) \
+                and not kws and 1 <= len(args) <= 2 and not any(isinstance(a, ast.Starred) for a in args):
+            return self.select(fn.value, args[0], args[1] if len(args) == 2 else ast.Constant(value=None))
+        if isinstance(fn, ast.Name) and fn.id == "getattr" and fn.id not in self.env and 2 <= len(args) <= 3 and not kws \
+                and isinstance(self.picked(args[1]), ast.Constant) and isinstance(self.picked(args[1]).value, str):
+            args[1] = self.picked(args[1])
+            return self.versioned(ast.Attribute(value=self.base(args[0]), attr=args[1].value, ctx=ast.Load()))
+        lits = [a for a in args if isinstance(a, (ast.List, ast.Tuple)) and not any(isinstance(x, ast.Starred) for x in a.elts)]
+        if isinstance(fn, ast.Name) and fn.id not in self.env and not kws and args and len(lits) == len(args):
+            # builtins over literal sequences: the traversal order / the elements are known
+            first = list(args[0].elts)
+            if len(args) == 1 and fn.id == "len":
+                return ast.Constant(value=len(first))
+            if len(args) == 1 and fn.id in ("list", "iter"):
+                return ast.List(elts=first, ctx=ast.Load())
+            if len(args) == 1 and fn.id == "tuple":
+                return ast.Tuple(elts=first, ctx=ast.Load())
+            if len(args) == 1 and fn.id == "reversed":
+                return ast.List(elts=first[::-1], ctx=ast.Load())
+            if len(args) == 1 and fn.id == "enumerate":
+                return ast.List(elts=[ast.Tuple(elts=[ast.Constant(value=i), x], ctx=ast.Load()) for i, x in enumerate(first)], ctx=ast.Load())
+            if fn.id == "zip":
+                return ast.List(elts=[ast.Tuple(elts=list(t), ctx=ast.Load()) for t in zip(*[a.elts for a in args])], ctx=ast.Load())
+        if isinstance(fn, ast.Name) and fn.id in ("next", "any", "all") and fn.id not in self.env and not kws and lits[:1] == args[:1] and args:
+            first = list(args[0].elts)
+            if fn.id == "next" and len(args) <= 2:
+                if first:
+                    return first[0]
+                if len(args) == 2:
+                    return args[1]
+                raise _Rse                               # StopIteration
+            if fn.id != "next" and len(args) == 1:
+                if not first:
+                    return ast.Constant(value=fn.id == "all")
+                return ast.Call(func=ast.Name(id="bool", ctx=ast.Load()), keywords=[],
+                                args=[ast.BoolOp(op=ast.Or() if fn.id == "any" else ast.And(), values=first) if len(first) > 1 else first[0]])
+        if isinstance(fn, ast.Name) and fn.id == "range" and fn.id not in self.env and not kws and 1 <= len(args) <= 3:
+            cs = [const_value(a) for a in args]
+            if all(isinstance(c, int) and not _noconst(c) for c in cs) and len(range(*cs)) <= 64:
+                return ast.List(elts=[ast.Constant(value=i) for i in range(*cs)], ctx=ast.Load())
+        if isinstance(fn, ast.Attribute) and not isinstance(fn.value, (ast.Dict, ast.List, ast.Tuple, ast.Set)):
+            # item assignment spelled as a call: D.__setitem__(k, v) / D.update({k: v}) store D[k] = v
+            pairs = None
+            if fn.attr == "__setitem__" and len(args) == 2 and not kws and not any(isinstance(a, ast.Starred) for a in args):
+                pairs = [(args[0], args[1])]
+            elif fn.attr == "update" and len(args) == 1 and not kws and isinstance(args[0], ast.Dict) and args[0].keys \
+                    and all(k is not None for k in args[0].keys):
+                pairs = list(zip(args[0].keys, args[0].values))
+            if pairs:
+                for k, v in pairs:
+                    t = _t(ast.Subscript(value=self.base(fn.value), slice=k, ctx=ast.Load()))
+                    self.stores.append(_Store(t, v, enclosing_stmt(e) or e, dict(self.facts), dict(self.ver)))
+                    self.ver[t] = self.ver.get(t, 0) + 1
+                return ast.Constant(value=None)
+        tgt = self.target(fn)
+        if tgt is not None:
+            return self.follow(tgt, fn, args, kws, e)
         c = ast.Call(func=fn, args=args, keywords=kws)
         self.calls.append(_Call(chain(fn), c, e, dict(self.facts), dict(self.ver)))
         return c
@@ -397,7 +832,8 @@ class _Run:
                 out.extend(gen(i + 1))
             return out
         elts = gen(0)
-        self.env = saved                                 # comprehension targets are local to the comprehension
+        self.env.clear()                                 # comprehension targets are local to the comprehension
+        self.env.update(saved)                           # (restored in place: helper frames may share this dict)
         return ast.List(elts=elts, ctx=ast.Load())
 
     # ------------------------------------------------------------------------------------------------ statements
@@ -429,14 +865,53 @@ class _Run:
         self.stores.append(_Store(t, value, stmt, dict(self.facts), dict(self.ver)))
         self.ver[t] = self.ver.get(t, 0) + 1
 
+    def pattern(self, pat: ast.pattern, subj: ast.expr) -> bool:
+        """does the evaluated subject match the pattern (literals, dotted constants, or-patterns, captures, fixed-length sequences)"""
+        lit = pat.value if isinstance(pat, ast.MatchSingleton) else const_value(pat.value) if isinstance(pat, ast.MatchValue) else None
+        if isinstance(lit, bool) and _boolish(subj):
+            return self.truth(subj) == lit               # a comparison result matched against True / False
+        if isinstance(pat, ast.MatchValue):
+            return self.truth(ast.Compare(left=subj, ops=[ast.Eq()], comparators=[self.ev(pat.value)]))
+        if isinstance(pat, ast.MatchSingleton):
+            return self.truth(ast.Compare(left=subj, ops=[ast.Is()], comparators=[ast.Constant(value=pat.value)]))
+        if isinstance(pat, ast.MatchOr):
+            return any(self.pattern(q, subj) for q in pat.patterns)
+        if isinstance(pat, ast.MatchAs):
+            if pat.pattern is not None and not self.pattern(pat.pattern, subj):
+                return False
+            if pat.name is not None:
+                self.env[pat.name] = subj
+            return True
+        if isinstance(pat, ast.MatchSequence) and isinstance(subj, (ast.Tuple, ast.List)) \
+                and not any(isinstance(q, ast.MatchStar) for q in pat.patterns) and not any(isinstance(x, ast.Starred) for x in subj.elts):
+            return len(pat.patterns) == len(subj.elts) and all(self.pattern(q, x) for q, x in zip(pat.patterns, subj.elts))
+        raise self.undecided(f"match pattern `{norm(pat)[:60]}`")
+
     def block(self, stmts) -> None:
         for s in stmts:
             self.stmt(s)
 
     def stmt(self, s: ast.stmt) -> None:  # noqa: C901, PLR0912
         if isinstance(s, ast.Expr):
-            if not isinstance(s.value, ast.Constant):
+            if isinstance(s.value, (ast.Yield, ast.YieldFrom)):
+                if not self.yields:
+                    raise self.undecided("yield outside a followed generator helper")
+                if isinstance(s.value, ast.Yield):
+                    self.yields[-1].append(self.ev(s.value.value) if s.value.value is not None else ast.Constant(value=None))
+                else:
+                    v = self.ev(s.value.value)
+                    if isinstance(v, (ast.List, ast.Tuple)):
+                        self.yields[-1].extend(v.elts)
+                    else:
+                        self.yields[-1].append(ast.Starred(value=v, ctx=ast.Load()))
+            elif not isinstance(s.value, ast.Constant):
                 self.ev(s.value)
+        elif isinstance(s, (ast.FunctionDef, ast.AsyncFunctionDef)):
+            if s.decorator_list:
+                raise self.undecided(f"decorated local function {s.name}")
+            self.closures[s.name] = s
+            self.defenv[id(s)] = self.env
+            self.env.pop(s.name, None)
         elif isinstance(s, ast.Assign):
             v = self.ev(s.value)
             for t in s.targets:
@@ -449,7 +924,7 @@ class _Run:
             if isinstance(s.target, ast.Name):
                 cur = self.ev(s.target)
                 if isinstance(cur, ast.List) and isinstance(s.op, ast.Add) and isinstance(v, (ast.List, ast.Tuple)):
-                    self.env[s.target.id] = ast.List(elts=[*cur.elts, *v.elts], ctx=ast.Load())
+                    self.set_list(s.target.id, ast.List(elts=[*cur.elts, *v.elts], ctx=ast.Load()))      # in place: aliases see it
                 else:
                     self.env[s.target.id] = ast.BinOp(left=cur, op=s.op, right=v)
             else:
@@ -481,6 +956,28 @@ class _Run:
                     self.block(s.body)
                 except (_Cnt, _Brk):
                     pass
+        elif isinstance(s, ast.Match):
+            subj = self.ev(s.subject)
+            for case in s.cases:
+                if self.pattern(case.pattern, subj) and (case.guard is None or self.truth(self.ev(case.guard))):
+                    self.block(case.body)
+                    break
+        elif isinstance(s, ast.While):
+            # unrolled while its condition is decided on this path (e.g. `while pending: x = pending.pop(0)` over a list literal)
+            n, broke = 0, False
+            while self.truth(self.ev(s.test)):
+                n += 1
+                if n > 16:
+                    raise self.undecided("a while loop of more than 16 iterations")
+                try:
+                    self.block(s.body)
+                except _Cnt:
+                    continue
+                except _Brk:
+                    broke = True
+                    break
+            if not broke:
+                self.block(s.orelse)
         elif isinstance(s, ast.With):
             for item in s.items:
                 v = self.ev(item.context_expr)
@@ -506,15 +1003,30 @@ class _Run:
             for t in s.targets:
                 self.bind(t, None, s)
         elif isinstance(s, ast.Try):
-            # implicit exceptions of calls are not modelled (as in the CFG queries with follow_exc=False); an explicit raise
+            # implicit exceptions of calls are not modelled (as in the CFG queries with follow_exc=False).  A failed lookup
+            # `D[k]` under a handler that catches KeyError is control flow and is followed into the handler; an explicit raise
             # inside a guarded body would need the handlers
+            keyed = any(_handler_catches(h, "KeyError") for h in s.handlers)
             try:
-                self.block(s.body)
-                self.block(s.orelse)
-            except _Rse:
-                if s.handlers:
-                    raise self.undecided("an explicit raise inside try/except") from None
-                raise
+                try:
+                    self.catching += keyed
+                    try:
+                        self.block(s.body)
+                    finally:
+                        self.catching -= keyed
+                except _Exc as x:
+                    h = next((h for h in s.handlers if _handler_catches(h, x.kind)), None)
+                    if h is None:
+                        raise
+                    if h.name:
+                        self.env[h.name] = ast.Name(id=f"<{x.kind}>", ctx=ast.Load())
+                    self.block(h.body)
+                except _Rse:
+                    if s.handlers:
+                        raise self.undecided("an explicit raise inside try/except") from None
+                    raise
+                else:
+                    self.block(s.orelse)
             finally:
                 self.block(s.finalbody)
         else:
@@ -529,11 +1041,18 @@ def _each(it: ast.expr) -> ast.expr:
     return ast.Name(id=f"each({_t(it)})", ctx=ast.Load())
 
 
-def _paths(fi: FuncInfo, preset: dict | None = None, limit: int = 4000) -> list[_Path]:
+def _bind(ctx: Ctx):
+    """make the repository model of this check available to the symbolic evaluation (helpers are followed through it)"""
+    global _REPO  # noqa: PLW0603
+    _REPO = ctx.repo
+    return ctx.repo
+
+
+def _paths(fi: FuncInfo, preset: dict | None = None, limit: int = 4000, repo=None) -> list[_Path]:
     out = []
     stack: list[list[bool]] = [[]]
     while stack:
-        run = _Run(fi, preset or {}, stack.pop())
+        run = _Run(fi, preset or {}, stack.pop(), repo)
         out.append(run.go())
         stack.extend(run.alternatives)
         if len(out) + len(stack) > limit:
@@ -583,7 +1102,7 @@ def _args(c: ast.Call, names: list[str]) -> list[str] | None:
 # ---------------------------------------------------------------------------------------------------------------------
 
 def rule_puncture_accompanies(ctx: Ctx) -> None:  # noqa: C901, PLR0912, PLR0915
-    repo = ctx.repo
+    repo = _bind(ctx)
     fi = repo.method("Community", "create_introduction_response", CM)
     p = fi.params()
     lan_sock, sock, ident, intro_param = p[1], p[2], p[3], p[4]
@@ -647,11 +1166,15 @@ def rule_puncture_accompanies(ctx: Ctx) -> None:  # noqa: C901, PLR0912, PLR0915
             want = (f"{who}.address", f"(self.my_estimated_wan[0], {who}.address[1])")
         else:
             want = (f"{who}.addresses.get(UDPv4LANAddress, {NULL_T})", f"{who}.address")
+        # `D.get(k, null)` spelled as a membership test / try-except KeyError: `D[k]` where k is known to be present, null where not
+        has_lan = _fact(path.facts, fi, f"UDPv4LANAddress in {who}.addresses")
+        same = (lan, wan) == want or (not is_lan and wan == want[1] and (
+            (has_lan is True and lan == f"{who}.addresses[UDPv4LANAddress]") or (has_lan is False and lan == NULL_T)))
         origin_ok = who == intro_param or who.startswith("self.get_peer_for_introduction(")
         key = f"derive:{is_lan}:{lan}:{wan}:{who}"
         if key not in seen:
             seen.add(key)
-            ctx.check((lan, wan) == want and origin_ok, "puncture-accompanies", fi, src_pl,
+            ctx.check(same and origin_ok, "puncture-accompanies", fi, src_pl,
                       f"introduced (LAN, WAN) = {want} for a peer {'on our LAN' if is_lan else 'elsewhere'}; the same peer gets the puncture request",
                       f"introduction address derivation changed: the response carries ({lan}, {wan}) while the puncture request goes to {tgt}; "
                       f"expected {want}")
@@ -698,9 +1221,10 @@ def rule_puncture_accompanies(ctx: Ctx) -> None:  # noqa: C901, PLR0912, PLR0915
         st = [s for s in path.stores if s.target == f"{peer}.address" and s.ver.get(s.target, 0) < c.ver.get(s.target, 0)]
         lan_node = next((s.src for s in path.stores if s.target == f"{peer}.address" and lan_node is oir.node), lan_node)
         is4 = _fact(c.facts, oir, f"isinstance({payload}.source_lan_address, UDPv4Address)")
-        want_store = f"UDPv4LANAddress(*{payload}.source_lan_address)"
+        src_lan = f"{payload}.source_lan_address"
+        want_store = (f"UDPv4LANAddress(*{src_lan})", f"UDPv4LANAddress({src_lan}[0], {src_lan}[1])")      # an (ip, port) pair either way
         if is4 is True:
-            good = len(st) == 1 and _t(st[0].value) == want_store
+            good = len(st) == 1 and _t(st[0].value) in want_store
         elif is4 is False:
             good = not st
         else:
@@ -715,7 +1239,7 @@ def rule_puncture_accompanies(ctx: Ctx) -> None:  # noqa: C901, PLR0912, PLR0915
 
 
 def rule_requester_selection(ctx: Ctx) -> None:
-    repo = ctx.repo
+    repo = _bind(ctx)
     fi = repo.method("Community", "on_introduction_response", CM)
     p = fi.params()
     peer, payload = p[1], p[3]
@@ -775,10 +1299,25 @@ def rule_requester_selection(ctx: Ctx) -> None:
                     _fact(st.facts, fi, f"self.address_in_lan_subnets({payload}.destination_address[0])") is False
     ctx.check(ok and n > 0, "requester-selection", fi, fi.node, "own WAN estimate is taken from responses that name a non-LAN IPv4 address",
               "the own-WAN estimate (used for the same-NAT test) is learnt from LAN addresses")
+    # ... and the same-NAT test of a response reads the estimate as this response updated it (values read after a store carry
+    # the store's version, so "decided on the old value" is a property of the path, not of statement positions)
+    same_key = _Run(fi, {}, []).key_of(f"{W_}[0] == self.my_estimated_wan[0]")[0]
+    stale = None
+    for paths in table.values():
+        for path in paths:
+            upd = [st for st in path.stores if st.target == "self.my_estimated_wan"]
+            if upd and stale is None and any(k == same_key for k in path.facts):
+                stale = (upd[0].src, path.extra())
+    ctx.check(stale is None, "requester-selection", fi, stale[0] if stale else fi.node,
+              "the same-NAT test uses the own-WAN estimate as updated by the response being handled",
+              "on_introduction_response compares the introduced WAN address with self.my_estimated_wan BEFORE it stores the public address this "
+              "response reports: after the requester's public address changed, a peer behind the previous public IP is taken for a LAN neighbour "
+              "(only its LAN address is stored, the punctured WAN address is dropped) and a peer behind the new one is not reached over the LAN"
+              + (f" (path conditions: {stale[1]})" if stale else ""))
 
 
 def rule_puncture_target(ctx: Ctx) -> None:
-    repo = ctx.repo
+    repo = _bind(ctx)
     fi = repo.method("Community", "on_puncture_request", CM)
     payload = fi.params()[3]
     W_, L_ = f"{payload}.wan_walker_address", f"{payload}.lan_walker_address"
@@ -834,7 +1373,7 @@ def _records_are_truthy(ctx: Ctx, da: FuncInfo) -> bool:
 
 def rule_introduction_recorded(ctx: Ctx) -> None:
     """discover_address (re)records an introduced address whenever it is unknown or its recorded introducer is not a verified key."""
-    da = ctx.repo.method("Network", "discover_address", "ipv8/peerdiscovery/network.py")
+    da = _bind(ctx).method("Network", "discover_address", "ipv8/peerdiscovery/network.py")
     p = da.params()
     peer, addr, service, new_style = p[1], p[2], p[3], p[4]
     A = "self._all_addresses"
@@ -877,8 +1416,92 @@ def rule_introduction_recorded(ctx: Ctx) -> None:
     ctx.check(bad_value is None, "introduction-recorded", da, bad_value or da.node, "record = (introducer key, service, new_style)", "the recorded introduction loses the introducer/service/new_style")
 
 
+def _wrapped_callee(repo, g: FuncInfo) -> str | None:
+    """name under which a wrapper function calls the function it wraps: a parameter of an enclosing function that it calls"""
+    from ..model import ancestors
+    outer_params = set()
+    for a in ancestors(g.node):
+        if isinstance(a, (ast.FunctionDef, ast.AsyncFunctionDef)):
+            outer_params.update(x.arg for x in a.args.posonlyargs + a.args.args + a.args.kwonlyargs)
+    own = set(g.params())
+    for n in walk_no_nested(g.node):
+        if isinstance(n, ast.Call) and isinstance(n.func, ast.Name) and n.func.id in outer_params and n.func.id not in own:
+            return n.func.id
+    return None
+
+
+def rule_address_refreshed(ctx: Ctx) -> None:
+    """The address the introducer hands out (and sends the puncture request to) is `introduction.address`; its only writer besides the
+    LAN update of on_introduction_request is the signed-message wrapper, which must record the packet's source address with a known
+    peer on EVERY signed packet before the handler runs."""
+    from ..model import ancestors
+    repo = _bind(ctx)
+    com = repo.cls("Community", CM)
+    factories: dict[str, FuncInfo] = {}
+    for m in com.methods.values():
+        if m.name in ("on_introduction_request", "on_introduction_response"):
+            continue
+        calls_handler = any(isinstance(n, ast.Call) and chain(n.func) in ("self.on_introduction_request", "self.on_introduction_response")
+                            for n in walk_no_nested(m.node))
+        if not calls_handler:
+            continue
+        for d in m.decorators:
+            name = chain(d.func) if isinstance(d, ast.Call) else chain(d)
+            r = repo.resolve_name(m.module, name) if name and "." not in name else None
+            if isinstance(r, FuncInfo):
+                factories[r.where] = r
+    ctx.floor("address-refreshed.wrappers", len(factories), 1)
+    n_known = 0
+    for fac in factories.values():
+        # the decorator factory itself, or the NEW module-level factories it delegates to (merged wrapper builders)
+        homes, todo = [fac], [fac]
+        while todo:
+            h = todo.pop()
+            for n in ast.walk(h.node):
+                if isinstance(n, ast.Call) and isinstance(n.func, ast.Name):
+                    r = repo.resolve_name(h.module, n.func.id)
+                    if isinstance(r, FuncInfo) and _is_new(r) and r not in homes:
+                        homes.append(r)
+                        todo.append(r)
+        wrappers = [g for h in homes for g in h.module.all_functions if h.node in list(ancestors(g.node)) and _wrapped_callee(repo, g)]
+        if not wrappers:
+            raise AnalysisError(f"anchor-lost: the function inside {fac.qualname} that calls the wrapped handler")
+        for g in wrappers:
+            callee = _wrapped_callee(repo, g)
+            gp = g.params()
+            if len(gp) < 2:
+                raise AnalysisError(f"undecided: {g.qualname} does not take (overlay, source address, data)")
+            src_addr = gp[1]
+            bad = None
+            for path in _paths(g):
+                for i, c in enumerate(path.calls):
+                    if c.chain != callee:
+                        continue
+                    who = c.arg(1)
+                    if who is None or isinstance(who, (ast.BoolOp, ast.IfExp)):
+                        raise AnalysisError(f"undecided: the peer handed to the wrapped handler in {g.qualname}")
+                    if isinstance(who, ast.Call) and (chain(who.func) or "").split(".")[-1] == "Peer":
+                        continue                                 # unknown sender: a fresh Peer built from the source address
+                    if _t(who) == src_addr:
+                        continue                                 # unsigned flavour of a merged wrapper: the handler gets the address
+                    n_known += 1
+                    wt = _t(_Run.base(who))
+                    ok = any(isinstance(x.call.func, ast.Attribute) and x.call.func.attr == "add_address"
+                             and _t(_Run.base(x.call.func.value)) == wt and _t(x.arg(0, "value")) == src_addr for x in path.calls[:i])
+                    if not ok and bad is None:
+                        bad = (c.src, path.extra())
+            ctx.check(bad is None, "address-refreshed", g, bad[0] if bad else g.node,
+                      "a known peer's address is refreshed from the source address of every signed packet before the handler runs",
+                      f"{g.qualname} can hand a known peer to the introduction handlers without peer.add_address({src_addr}): a verified peer whose "
+                      "packets arrive from a new address (NAT mapping changed) keeps its old address, so the introducer hands out that stale WAN "
+                      "address and sends the puncture request (and its responses) there - the requester's contact attempt reaches nobody"
+                      + (f" (path conditions: {bad[1]})" if bad else ""))
+    ctx.floor("address-refreshed.known-peer-paths", n_known, 1)
+
+
 def run(ctx: Ctx) -> None:
     rule_introduction_recorded(ctx)
+    rule_address_refreshed(ctx)
     rule_puncture_accompanies(ctx)
     rule_requester_selection(ctx)
     rule_puncture_target(ctx)
@@ -918,6 +1541,23 @@ WITNESSES = [
     {"name": "same-NAT test inverted", "file": CM, "rule": "requester-selection",
      "old": "              and payload.wan_introduction_address[0] == self.my_estimated_wan[0]):\n            introductions.append(payload.lan_introduction_address)",
      "new": "              and payload.wan_introduction_address[0] != self.my_estimated_wan[0]):\n            introductions.append(payload.lan_introduction_address)"},
+    {"name": "own WAN estimate updated after the same-NAT test", "rule": "requester-selection", "edits": [
+        {"file": CM,
+         "old": "            self.my_estimated_wan = payload.destination_address\n        self.my_peer.address = payload.destination_address\n\n        if peer.new_style_intro:",
+         "new": "            pass\n        self.my_peer.address = payload.destination_address\n\n        if peer.new_style_intro:"},
+        {"file": CM,
+         "old": "        self.introduction_response_callback(peer, dist, payload)\n",
+         "new": "        if (isinstance(payload.destination_address, UDPv4Address)\n"
+                "                and not self.address_in_lan_subnets(payload.destination_address[0])):\n"
+                "            self.my_estimated_wan = payload.destination_address\n"
+                "        self.introduction_response_callback(peer, dist, payload)\n"}]},
+    {"name": "known peer's address refreshed for new interfaces only", "file": "ipv8/lazy_community.py", "rule": "address-refreshed",
+     "old": "            if peer:\n                peer.add_address(source_address)\n            return func(self, peer or Peer(auth.public_key_bin, source_address), *unpacked)",
+     "new": "            if peer and source_address.__class__ not in peer.addresses:\n                peer.add_address(source_address)\n"
+            "            return func(self, peer or Peer(auth.public_key_bin, source_address), *unpacked)"},
+    {"name": "known peer's address never refreshed", "file": "ipv8/lazy_community.py", "rule": "address-refreshed",
+     "old": "            if peer:\n                peer.add_address(source_address)\n            return func(self, peer or Peer(auth.public_key_bin, source_address), *unpacked)",
+     "new": "            return func(self, peer or Peer(auth.public_key_bin, source_address), *unpacked)"},
     {"name": "puncture always to WAN", "file": CM, "rule": "puncture-target",
      "old": "        if payload.wan_walker_address[0] == self.my_estimated_wan[0]:\n            target = payload.lan_walker_address\n", "new": ""},
     {"name": "puncture loses identifier", "file": CM, "rule": "puncture-target",
